@@ -120,7 +120,7 @@ pub fn run() {
             rep.sample(json!({"part":"handler","world":name,"history":s}));
         }
         for mut v in vio {
-            if v.key.starts_with("C15:") {
+            if v.key.starts_with("C15:") || v.key.starts_with("panic:") {
                 v.replay["workload"] = json!(name);
                 v.replay["driver"] = json!("expiry");
                 found.push(v);
